@@ -6,6 +6,9 @@
 //!   c16_parse <hex>    -> `<ok|err> <n> <dump> pre=<dump before first failure> | txkey=<hex|none> addkeys=<k>:<hex>|none`
 //!   c16_ser <dump>     -> hex of RawExtraField::from(ExtraField(fields)).0   (`err` if the dump is not a value)
 //!   c16_subfield <hex> -> `ok <dump>` | `err`   (strict deserialize::<SubField>)
+//!   c16_rawparse <hex> -> `<n> <dump>` of RawExtraField::try_parse (the fields, whichever the flag)
+//!   c16_okpre <hex>    -> `<ok|err> pre=<dump>`: the flag and the fields before the first failure (what the property constrains
+//!                         for arbitrary bytes); compared with the model AND with the independent grammar reader Spec.Extra.parse
 use crate::common::*;
 use curve25519_dalek::constants::ED25519_BASEPOINT_POINT as G;
 use curve25519_dalek::scalar::Scalar;
@@ -95,6 +98,8 @@ pub fn exec(t: &[&str]) -> Option<String> {
         ["c16_parse", h] => Some(parse_line(&unhex(h))),
         ["c16_ser", d] => Some(ser_line(d)),
         ["c16_subfield", h] => Some(subfield_line(&unhex(h))),
+        ["c16_okpre", h] => { let b = unhex(h); let ok = ExtraField::try_parse(&RawExtraField(b.clone())).is_ok(); Some(format!("{} pre={}", if ok { "ok" } else { "err" }, dump(&pre_fields(&b)))) }
+        ["c16_rawparse", h] => { let f = RawExtraField(unhex(h)).try_parse(); Some(format!("{} {}", f.0.len(), dump(&f.0))) }
         // C02 for the sub-field codec: `<bytes> <reported len> <partial: consumed:eq|ne | err> <strict: eq|ne|err>` of the field
         // described by <dump>, partial parse with <suffix> appended
         ["c16_subfield_rt", d, suf] => Some(match parse_field(d) {
@@ -257,6 +262,33 @@ fn prefix_check(o: &mut Out, b: &[u8]) {
     o.direct(ok, "c16: TransactionPrefix decode does not look inside extra", hex(b), format!("{:?}", back.map(|q| hex(&q.extra.0)).map_err(|e| e.to_string())), hex(b));
 }
 
+/// the library's encoding of `sf` with the merge-mining size byte (which the decoder reads and ignores) replaced by the
+/// byte found at that place of the input `b` when the field starts at offset `at`
+fn enc_patched(sf: &SubField, b: &[u8], at: usize) -> Vec<u8> {
+    let mut w = serialize(sf);
+    if matches!(sf, SubField::MergeMining(..)) && w.len() > 1 && at + 1 < b.len() { w[1] = b[at + 1]; }
+    w
+}
+/// concatenation of the patched encodings of `fs` laid out from offset 0 of `b`
+fn reencode_patched(fs: &[SubField], b: &[u8]) -> Vec<u8> {
+    let mut re = Vec::new();
+    for sf in fs { let w = enc_patched(sf, b, re.len()); re.extend(w); }
+    re
+}
+/// every field of `fs`, in order, re-encodes (patched) to a slice of `b` starting at or after the end of the previous one;
+/// returns the description of the first field for which no such slice exists
+fn salvaged_are_slices(fs: &[SubField], b: &[u8], from: usize) -> Result<(), String> {
+    let mut pos = from;
+    for sf in fs {
+        let len = serialize(sf).len();
+        let mut found = None;
+        let mut at = pos;
+        while at + len <= b.len() { if b[at..at + len] == enc_patched(sf, b, at)[..] { found = Some(at); break; } at += 1; }
+        match found { Some(a) => pos = a + len, None => return Err(format!("{} not found at offset >= {}", trunc(&dump_field(sf), 120), pos)) }
+    }
+    Ok(())
+}
+
 /// a parse case on arbitrary bytes, with the intrinsic checks that hold for every input
 fn parse_case(o: &mut Out, b: &[u8], fam: &str) -> String {
     let r = o.op(format!("c16_parse {}", hex(b)), false);
@@ -273,8 +305,30 @@ fn parse_case(o: &mut Out, b: &[u8], fam: &str) -> String {
     // re-encode to exactly the input (up to the merge-mining size byte, which the decoder reads and ignores)
     if isok { let mut re = Vec::new(); for sf in &f.0 { re.extend(serialize(sf)); }
         let has_mm = f.0.iter().any(|sf| matches!(sf, SubField::MergeMining(..)));
-        o.direct(re.len() == b.len() && (has_mm || re[..] == b[..]), "c16: try_parse(e) = Ok(fs) => fs re-encode to e (no byte skipped or invented)", format!("c16_parse {}", hex(b)), hex(&re), hex(b)); }
+        o.direct(re.len() == b.len() && (has_mm || re[..] == b[..]), "c16: try_parse(e) = Ok(fs) => fs re-encode to e (no byte skipped or invented)", format!("c16_parse {}", hex(b)), hex(&re), hex(b));
+        // byte exact also in the presence of merge-mining fields: only the size byte of each of them is taken from the input (C16_ok_exact)
+        let rp = reencode_patched(&f.0, b);
+        o.direct(rp[..] == b[..], "c16: try_parse(e) = Ok(fs) => fs re-encode to e byte for byte, merge-mining size bytes apart", format!("c16_parse {}", hex(b)), trunc(&hex(&rp), 400), trunc(&hex(b), 400)); }
+    // Ok or Err: the fields before the first failure re-encode to an initial part of the input (C16_pre_semantics) ...
+    let rp = reencode_patched(&pre, b);
+    o.direct(rp.len() <= b.len() && rp[..] == b[..rp.len()], "c16: the sub-fields decoded before the first failure re-encode to a byte prefix of the input", format!("c16_parse {}", hex(b)), trunc(&hex(&rp), 400), trunc(&hex(b), 400));
+    // ... and every sub-field returned after it was decoded from the input: it re-encodes to a slice of it, in order, without overlap
+    if !isok && b.len() <= 8192 && f.0.len() >= pre.len() {
+        let r = salvaged_are_slices(&f.0[pre.len()..], b, rp.len().min(b.len()));
+        o.direct(r.is_ok(), "c16: every sub-field returned after a failure re-encodes to a slice of the input (in order, no overlap)", format!("c16_parse {}", hex(b)), r.clone().err().unwrap_or_default(), "a slice of the input".into());
+    }
+    // the sub-field decoder is generic in the reader: through a reader that returns one byte per call it decodes the same
+    // value from the same number of bytes as from a slice
+    if !b.is_empty() && b.len() <= 600 {
+        let a = monero::consensus::encode::deserialize_partial::<SubField>(b).ok();
+        let c = decode_chunked::<SubField>(b);
+        o.direct(a == c, "c16: SubField decode through a one-byte-per-call reader == decode from a slice", format!("c16_parse {}", hex(b)), format!("{:?}", c.map(|(g, n)| (dump_field(&g), n))), format!("{:?}", a.map(|(g, n)| (dump_field(&g), n))));
+    }
     if b.len() <= 4096 { prefix_check(o, b); }
+    // relation C for parsing: flag and pre against the independent grammar reader (every 5th case, and every small fixed one)
+    if o.ops.len() % 5 == 0 || fam == "len2" || fam.starts_with("wf.mm") || fam.contains("special-key") || fam.contains("long") || fam.contains("64k") || fam == "huge-len" {
+        o.op(format!("c16_okpre {}", hex(b)), !b.is_empty()); o.stat(&format!("okpre.{}", if isok { "ok" } else { "err" }));
+    }
     let nt = !b.is_empty() && (!f.0.is_empty() || b.len() >= 2);
     if nt { o.nontrivial.insert(format!("c16_parse {}", hex(b))); }
     o.stat(&format!("parse.{}.{}", fam, if err { "err" } else { "ok" }));
@@ -296,6 +350,8 @@ fn wf_case(o: &mut Out, fs: &[GF], fam: &str, subfields: bool) {
     // serialize(ExtraField) is the length-prefixed buffer
     let mut want = vec![]; varint(bytes.len() as u64, &mut want); want.extend_from_slice(&bytes);
     o.direct(serialize(&extra) == want, "c16: serialize(ExtraField) == varint(len) ++ layout", dump(&subs), hex(&serialize(&extra)), hex(&want));
+    let mut w = vec![]; let reported = monero::consensus::encode::Encodable::consensus_encode(&extra, &mut w).ok();
+    o.direct(reported == Some(w.len()) && w == want, "c16: ExtraField::consensus_encode reports the number of bytes written", dump(&subs), format!("{:?}", reported), w.len().to_string());
     for s in &subs {
         let w = serialize(s);
         let b = deserialize::<SubField>(&w);
@@ -303,8 +359,20 @@ fn wf_case(o: &mut Out, fs: &[GF], fam: &str, subfields: bool) {
         if subfields { o.op(format!("c16_subfield {}", hex(&w)), true); o.stat("subfield.wf"); }
     }
     o.op(format!("c16_ser {}", dump(&subs)), true);
+    if subfields { o.op(format!("c16_rawparse {}", hex(&bytes)), true); o.stat("rawparse.wf"); }
     o.stat(&format!("wf.{}", fam));
     parse_case(o, &bytes, &format!("wf.{}", fam));
+}
+
+/// a sequence of constructible values that need not be well formed (short padding anywhere): the library's encoder against the
+/// model and the by-the-book spec (`c16_ser`), against the harness's own layout, and the parse of what it wrote
+fn nonwf_ser_case(o: &mut Out, fs: &[GF], fam: &str) {
+    let subs: Vec<SubField> = match fs.iter().map(to_sub).collect::<Option<Vec<_>>>() { Some(v) => v, None => return };
+    let r = o.op(format!("c16_ser {}", dump(&subs)), true);
+    let bytes = layout_all(fs);
+    o.direct(r == hex(&bytes), "c16: raw(f) == by-the-book layout (any constructible sequence)", dump(&subs), trunc(&r, 400), trunc(&hex(&bytes), 400));
+    o.stat(&format!("ser.{}", fam));
+    if r != "err" && !r.starts_with("PANIC") { parse_case(o, &unhex(&r), fam); o.op(format!("c16_rawparse {}", r), true); o.stat("rawparse.nonwf"); }
 }
 
 fn mutate(rng: &mut Rng, b: &[u8], kind: u64) -> Vec<u8> {
@@ -439,6 +507,49 @@ pub fn run(o: &mut Out, tier: &str, seed: u64) {
         let k = rng.range(1, 6) as usize;
         let fs: Vec<GF> = (0..k).map(|_| any_field(&mut rng, &keys)).collect();
         parse_case(o, &layout_all(&fs), "non-wf-seq");
+        nonwf_ser_case(o, &fs, "non-wf-ser");
+    }
+    // (7b) the encoder on constructible values that are NOT well-formed sequences: short paddings in front of other fields
+    // (zero bytes merge: P n, P m parses back as P (n+m+1)), runs of paddings, short padding before a key / a nonce
+    for i in 0..scale(120, 1500) {
+        let n = *rng.pick(&[0usize, 1, 2, 100, 126, 127, 253, 254]);
+        let mut fs: Vec<GF> = vec![GF::Pad(n)];
+        match i % 4 {
+            0 => fs.push(GF::Pad(*rng.pick(&[0usize, 1, 2, 100, 253, 254, 255]))),
+            1 => fs.push(wf_field(&mut rng, &keys, false)),
+            2 => { fs.insert(0, wf_field(&mut rng, &keys, false)); fs.push(GF::Pad(rng.below(256) as usize)); fs.push(wf_field(&mut rng, &keys, false)); }
+            _ => { let k = rng.range(2, 5); for _ in 0..k { fs.push(GF::Pad(rng.below(130) as usize)); } }
+        }
+        nonwf_ser_case(o, &fs, "short-pad-first");
+    }
+    // (7c) long key lists with the data present (two-byte counts), and raw extras above 64 KiB
+    let big_keys: Vec<usize> = if thorough { vec![200, 1000, 2000] } else { vec![rng.range(200, 320) as usize] };
+    for k in big_keys {
+        let ks: Vec<[u8; 32]> = (0..k).map(|_| keys.valid(&mut rng)).collect();
+        let fs = vec![GF::Key(keys.valid(&mut rng)), GF::Add(ks), GF::Pad(rng.below(256) as usize)];
+        wf_case(o, &fs, "addkeys-long", false);
+        // one rejected key near the end: everything fails from the count on, the cursor is left after the bad key
+        let mut b = layout_all(&fs[..2]);
+        let at = b.len() - 32 * (1 + rng.below(3) as usize);
+        b[at..at + 32].copy_from_slice(&keys.bad[0]);
+        parse_case(o, &b, "addkeys-long-bad");
+    }
+    let big_raw: Vec<usize> = if thorough { vec![70_000, 100_000] } else { vec![66_000 + rng.below(4_000) as usize] };
+    for n in big_raw {
+        let fs = vec![GF::Nonce(rng.bytes(n / 2)), GF::Key(keys.valid(&mut rng)), GF::Gate(rng.bytes(n - n / 2)), GF::Pad(255), GF::Pad(7)];
+        wf_case(o, &fs, "raw-over-64k", false);
+        prefix_check(o, &layout_all(&fs));
+        let mut b = layout_all(&fs); let i = rng.below(40) as usize + 3; b.truncate(b.len() - 263 - i);
+        parse_case(o, &b, "raw-over-64k-cut");
+    }
+    // (7d) the allocation cap is the exact domain of the raw conversion (C16_over_cap): a buffer of exactly CAP bytes converts,
+    // one byte more makes the `unwrap` of From<ExtraField> panic (buffer of Nonce(n) = 1 + len(varint n) + n)
+    for (n, want_ok) in [(CAP as usize - 5, true), (CAP as usize - 4, false)] {
+        let buf_len = 1 + varint_len(n as u64) + n;
+        let r = guarded(move || RawExtraField::from(ExtraField(vec![SubField::Nonce(vec![0x5a; n])])).0.len());
+        o.direct(if want_ok { r == Ok(buf_len) } else { r.is_err() }, "c16: From<ExtraField> converts iff the buffer is within the allocation cap (the unwrap panics above it)",
+            format!("Nonce of {} bytes, buffer {} bytes", n, buf_len), format!("{:?}", r.as_ref().map_err(|e| trunc(e, 80))), if want_ok { format!("Ok({})", buf_len) } else { "panic".into() });
+        o.stat(if want_ok { "cap.at" } else { "cap.above" });
     }
     // (8) six mutation kinds of valid raws
     for i in 0..scale(3000, 30000) {
@@ -447,6 +558,7 @@ pub fn run(o: &mut Out, tier: &str, seed: u64) {
         let mut m = mutate(&mut rng, &b, kind);
         if rng.chance(1, 8) { let k2 = rng.below(6); m = mutate(&mut rng, &m, k2); }
         if m.len() <= 1200 && rng.chance(1, 6) { o.op(format!("c16_subfield {}", hex(&m)), true); o.stat("subfield.mutated"); }
+        if m.len() <= 1200 && rng.chance(1, 12) { o.op(format!("c16_rawparse {}", hex(&m)), !m.is_empty()); o.stat("rawparse.mutated"); }
         parse_case(o, &m, &format!("mut{}", kind));
     }
     // (9) huge declared lengths around the allocation caps, for each length-prefixed tag
@@ -469,7 +581,8 @@ pub fn run(o: &mut Out, tier: &str, seed: u64) {
         if rng.chance(1, 4) && n >= 40 { let at = rng.below((n - 33) as u64) as usize; b[at] = 1; b[at + 1..at + 33].copy_from_slice(&keys.valid(&mut rng)); }
         parse_case(o, &b, "random");
         if rng.chance(1, 8) { o.op(format!("c16_subfield {}", hex(&b)), true); o.stat("subfield.random"); }
+        if rng.chance(1, 12) { o.op(format!("c16_rawparse {}", hex(&b)), !b.is_empty()); o.stat("rawparse.random"); }
     }
-    o.notes.push("nontrivial rule: c16_ser and c16_subfield always; c16_parse when the input is non-empty and (a sub-field was decoded or the input has >= 2 bytes)".into());
+    o.notes.push("nontrivial rule: c16_ser, c16_subfield, c16_rawparse and c16_okpre (non-empty input) always; c16_parse when the input is non-empty and (a sub-field was decoded or the input has >= 2 bytes)".into());
     o.notes.push("pre=<dump>: fields returned by the library's SubField decoder on a cursor before its first failure (computed by the harness with the library's decoder); for `err` results only the flag, `pre` and the accessors are constrained by the property, the salvaged list is modelled and compared as well".into());
 }
